@@ -2799,7 +2799,8 @@ impl<'store> QueryIter<'store> {
                 Box::new(iter.filter_text_byref(text, true, " "))
             }
             &Constraint::Text(text, TextMode::CaseInsensitive) => {
-                Box::new(iter.filter_text_byref(text, false, " "))
+                //(filter_text lower-cases the reference text, filter_text_byref expects that to have been done already)
+                Box::new(iter.filter_text(text.to_string(), false, " "))
             }
             Constraint::Regex(regex) => Box::new(iter.filter_text_regex(regex.clone(), " ")),
             &Constraint::TextVariable(var) => {
@@ -3452,7 +3453,8 @@ impl<'store> QueryIter<'store> {
                 Box::new(iter.filter_text_byref(text, true))
             }
             &Constraint::Text(text, TextMode::CaseInsensitive) => {
-                Box::new(iter.filter_text_byref(text, false))
+                //(filter_text lower-cases the reference text, filter_text_byref expects that to have been done already)
+                Box::new(iter.filter_text(text.to_string(), false))
             }
             Constraint::Regex(regex) => Box::new(iter.filter_text_regex(regex.clone())),
             &Constraint::TextRelation { var, operator } => {
